@@ -8,23 +8,30 @@ the M-Deferred model; `C20_src_*` (Props/C20.lean) prove that the hand-written `
 interpretation of what was found in the source.
 
 What is recognised (everything else becomes `.unknown` / `false`, which no reference term contains, so the proofs break):
-* `on_deferred_result`: two empty-list bindings; a nested `capture(value, values)` that appends and returns its argument; one
-  `deferred.addCallbacks(partial(capture, values=S), partial(capture, values=F))` (the lists are identified by their ROLE, so renaming
-  them is harmless); then a chain of terminating arms - `if/elif/else` or consecutive `if`s, equivalent because every arm
-  returns or raises - with guards `S and F`, `F`, `S` (also `len(x)`, `len(x) == 1`, `len(x) > 0`), `not deferred.called`, `else`,
+* `on_deferred_result`: two empty-list bindings; one `deferred.addCallbacks(cb, eb)` (positional or `callback=`/`errback=`) whose two
+  arguments each append their argument to one of the lists and return it unchanged - `partial(capture, values=L)` / `lambda v: capture(v, L)`
+  with a nested `capture(value, values)` that appends and returns, or a nested one-parameter function doing the same for a fixed list (the
+  lists are identified by their ROLE, so renaming them is harmless); then a chain of terminating arms - `if/elif/else` or consecutive `if`s, equivalent because every arm
+  returns or raises; an arm that starts with a nested terminating `if` is two arms - with guards `S and F`, `F`, `S` (also `len(x)`,
+  `len(x) == 1`, `len(x) > 0`), `not S and not F`, `not deferred.called`, `else`, in the ORDER of the source (that a reordering of
+  mutually exclusive arms means the same is decided in Lean, by evaluating the interpreter on the generated arms, not here),
   and arms `raise ImpossibleDeferredError(...)`, `[x] = F; return on_failure(deferred, x)` (or `F[0]`), same for success,
   `return on_no_result(deferred)`.
 * a matcher's `match`: exactly `return on_deferred_result(deferred, on_success=…, on_failure=…, on_no_result=…)` (keywords in any order);
-  each handler is a method of the class or a lambda; its body: `deferred.addErrback(lambda _: None)` (swallow), `return Mismatch(...)`
+  each handler is a method of the class or a lambda; its body (after the normalisations of harness/pynorm.py, e.g. a result bound to a local
+  and returned at once): `deferred.addErrback(lambda _: None)` (swallow; any parameter name), `return Mismatch(...)`
   (whatever the message), `return self._matcher.match(<its result parameter>)`, `return None`.  Messages are not translated.
 * `extract_result`: two empty-list bindings, `deferred.addCallbacks(S.append, F.append)`, arms `F[0].raiseException()`,
-  `return S[0]`, `raise DeferredNotFired(deferred)`; falling off the end is the arm `(otherwise, returnNone)`.
+  `return S[0]`, `raise DeferredNotFired(deferred)`; falling off the end is the arm `(otherwise, returnNone)`; statements that follow an
+  unconditional raise inside an arm (`Failure.raiseException()` always raises) are dead code and dropped.
 * `_run_user`: `d = defer.maybeDeferred(function, *args)`, `d.addErrback(self._got_user_failure)`, `return extract_result(d)` (directly or
   through one local).
 Trusted: this recogniser (a bug here could make a changed source look unchanged) and that `TTV.DeferredSkel.*I` read these forms as
 Python does.
 """
 import ast, os
+from harness import pynorm
+from harness.pynorm import canon
 
 
 def find(tree, path):
@@ -40,15 +47,9 @@ def find(tree, path):
 
 
 def body_of(fn):
-    """statements without docstring / pass"""
-    out = []
-    for s in fn.body:
-        if isinstance(s, ast.Expr) and isinstance(s.value, ast.Constant) and isinstance(s.value.value, str):
-            continue
-        if isinstance(s, ast.Pass):
-            continue
-        out.append(s)
-    return out
+    """the statements of a function after the behaviour-preserving normalisations of harness/pynorm.py (docstrings dropped, `if … else` after
+    a returning branch flattened, temporaries and effect-free aliases inlined, …)"""
+    return pynorm.normal_body(fn)
 
 
 def empty_list_binding(s):
@@ -72,6 +73,14 @@ def guard(t, S, F, dname):
         return None
     if isinstance(t, ast.BoolOp) and isinstance(t.op, ast.And) and len(t.values) == 2 and {role(t.values[0]), role(t.values[1])} == {'S', 'F'}:
         return '.both'
+
+    def neg(e):
+        return role(e.operand) if isinstance(e, ast.UnaryOp) and isinstance(e.op, ast.Not) else None
+    if isinstance(t, ast.BoolOp) and isinstance(t.op, ast.And) and len(t.values) == 2 and {neg(t.values[0]), neg(t.values[1])} == {'S', 'F'}:
+        return '.neither'
+    if isinstance(t, ast.UnaryOp) and isinstance(t.op, ast.Not) and isinstance(t.operand, ast.BoolOp) and isinstance(t.operand.op, ast.Or) \
+            and len(t.operand.values) == 2 and {role(t.operand.values[0]), role(t.operand.values[1])} == {'S', 'F'}:
+        return '.neither'
     r = role(t)
     if r:
         return '.failures' if r == 'F' else '.successes'
@@ -88,15 +97,20 @@ def arms_of(stmts, guard_of, arm_of, fall_off):
     while i < len(stmts):
         s = stmts[i]
         if isinstance(s, ast.If):
-            out.append((guard_of(s.test), arm_of(s.body)))
+            g = guard_of(s.test)
+            body = s.body
+            # an arm that begins with a nested terminating `if g2: A2` is the two arms (g and g2 -> A2), (g -> the rest)
+            if body and isinstance(body[0], ast.If) and not body[0].orelse and pynorm.terminates(body[0].body) and len(body) > 1:
+                both = {g, guard_of(body[0].test)}
+                out.append(('.both' if both == {'.failures', '.successes'} else '.unknown', arm_of(body[0].body)))
+                body = body[1:]
+            out.append((g, arm_of(body)))
             if s.orelse:
-                if len(s.orelse) == 1 and isinstance(s.orelse[0], ast.If):
-                    stmts = stmts[:i + 1] + s.orelse + stmts[i + 1:]
-                else:
-                    out.append(('.otherwise', arm_of(s.orelse)))
-                    if i + 1 < len(stmts):
-                        out.append(('.otherwise', '.unknown'))       # code after a complete if/else
-                    return out
+                # the arm above leaves the function, so the else-branch is simply what comes next
+                after = stmts[i + 1:]
+                if after and pynorm.terminates(s.orelse):
+                    after = []                                        # (unreachable: both branches leave)
+                stmts = stmts[:i + 1] + list(s.orelse) + after
             i += 1
             continue
         out.append(('.otherwise', arm_of(stmts[i:])))
@@ -113,8 +127,24 @@ def on_deferred_result(fn):
         return '{ captureOk := false, installsCapturePair := false, arms := [] }'
     dname, on_s, on_f, on_n = params
     stmts = body_of(fn)
-    lists, capture_ok, installs, S, F = [], False, False, None, None
+    lists, installs, S, F = [], False, None, None
+    generic, dedicated = {}, {}         # local functions: capture(value, values) / got_x(value) appending to one fixed list
+    capture_ok = False
     rest = []
+
+    def appender(a):
+        """the list a callable appends its argument to before returning it unchanged, or None"""
+        if isinstance(a, ast.Name) and a.id in dedicated:
+            return dedicated[a.id]
+        if isinstance(a, ast.Call) and ast.unparse(a.func) in ('partial', 'functools.partial') and len(a.args) == 1 \
+                and ast.unparse(a.args[0]) in generic and len(a.keywords) == 1 and a.keywords[0].arg == generic[ast.unparse(a.args[0])] \
+                and isinstance(a.keywords[0].value, ast.Name) and a.keywords[0].value.id in lists:
+            return a.keywords[0].value.id
+        if isinstance(a, ast.Lambda) and len(a.args.args) == 1 and isinstance(a.body, ast.Call) and ast.unparse(a.body.func) in generic \
+                and len(a.body.args) == 2 and not a.body.keywords and ast.unparse(a.body.args[0]) == a.args.args[0].arg \
+                and isinstance(a.body.args[1], ast.Name) and a.body.args[1].id in lists:
+            return a.body.args[1].id
+        return None
     for k, s in enumerate(stmts):
         n = empty_list_binding(s)
         if n and not rest:
@@ -123,23 +153,29 @@ def on_deferred_result(fn):
         if isinstance(s, ast.FunctionDef) and not rest:
             b = body_of(s)
             ps = [a.arg for a in s.args.args]
-            capture_name = s.name
-            capture_ok = (len(ps) == 2 and len(b) == 2 and ast.unparse(b[0]) == '%s.append(%s)' % (ps[1], ps[0])
-                          and ast.unparse(b[1]) == 'return %s' % ps[0])
-            values_kw = ps[1] if len(ps) == 2 else None
+            if len(ps) == 2 and len(b) == 2 and ast.unparse(b[0]) == '%s.append(%s)' % (ps[1], ps[0]) and ast.unparse(b[1]) == 'return %s' % ps[0]:
+                generic[s.name] = ps[1]
+                continue
+            if len(ps) == 1 and len(b) == 2 and ast.unparse(b[1]) == 'return %s' % ps[0]:
+                for lst in lists:
+                    if ast.unparse(b[0]) == '%s.append(%s)' % (lst, ps[0]):
+                        dedicated[s.name] = lst
+                if s.name in dedicated:
+                    continue
+            rest.append(s)
             continue
-        if isinstance(s, ast.Expr) and isinstance(s.value, ast.Call) and ast.unparse(s.value.func) == dname + '.addCallbacks' and not rest:
+        if isinstance(s, ast.Expr) and isinstance(s.value, ast.Call) and ast.unparse(s.value.func) == dname + '.addCallbacks' and not rest and not installs:
             c = s.value
-            if len(c.args) == 2 and not c.keywords and capture_ok:
-                got = []
-                for a in c.args:
-                    if isinstance(a, ast.Call) and ast.unparse(a.func) in ('partial', 'functools.partial') and len(a.args) == 1 \
-                            and ast.unparse(a.args[0]) == capture_name and len(a.keywords) == 1 and a.keywords[0].arg == values_kw \
-                            and isinstance(a.keywords[0].value, ast.Name) and a.keywords[0].value.id in lists:
-                        got.append(a.keywords[0].value.id)
-                if len(got) == 2 and got[0] != got[1] and not installs:
+            pair = None
+            if len(c.args) == 2 and not c.keywords:
+                pair = c.args
+            elif not c.args and sorted(kw.arg for kw in c.keywords) == ['callback', 'errback']:
+                pair = [[kw.value for kw in c.keywords if kw.arg == n][0] for n in ('callback', 'errback')]
+            if pair:
+                got = [appender(a) for a in pair]
+                if None not in got and got[0] != got[1]:
                     S, F = got
-                    installs = True
+                    installs = capture_ok = True
                     continue
             rest.append(s)
             continue
@@ -147,6 +183,10 @@ def on_deferred_result(fn):
 
     def arm(body):
         b = [x for x in body if not (isinstance(x, ast.Expr) and isinstance(x.value, ast.Constant))]
+        for k, x in enumerate(b):            # statements after an unconditional raise are dead code
+            if isinstance(x, ast.Raise):
+                b = b[:k + 1]
+                break
         if len(b) == 1 and isinstance(b[0], ast.Raise) and b[0].exc is not None and ast.unparse(b[0].exc).startswith('ImpossibleDeferredError('):
             return '.raiseImpossible'
         if len(b) == 1 and isinstance(b[0], ast.Return) and ast.unparse(b[0].value) == '%s(%s)' % (on_n, dname):
@@ -199,7 +239,7 @@ def handler(cls, expr, has_arg):
         if not ss:
             return '.retNone'                       # falling off the end returns None
         s, rest = ss[0], ss[1:]
-        if isinstance(s, ast.Expr) and ast.unparse(s.value) in ('%s.addErrback(lambda _: None)' % dname, '%s.addErrback(lambda f: None)' % dname):
+        if isinstance(s, ast.Expr) and canon(s.value) == '%s.addErrback(lambda v0: None)' % dname:
             return '(.swallow %s)' % go(rest)
         if isinstance(s, ast.Return) and not rest:
             v = s.value
@@ -250,8 +290,11 @@ def extract_result(fn):
             continue
         if isinstance(s, ast.Expr) and isinstance(s.value, ast.Call) and ast.unparse(s.value.func) == dname + '.addCallbacks' and not rest and not installs:
             c = s.value
-            names = [ast.unparse(a)[:-len('.append')] for a in c.args if ast.unparse(a).endswith('.append')]
-            if len(c.args) == 2 and not c.keywords and len(names) == 2 and names[0] != names[1] and all(n in lists for n in names):
+            pair = list(c.args) if len(c.args) == 2 and not c.keywords else \
+                [[kw.value for kw in c.keywords if kw.arg == n][0] for n in ('callback', 'errback')] \
+                if not c.args and sorted(kw.arg for kw in c.keywords) == ['callback', 'errback'] else []
+            names = [ast.unparse(a)[:-len('.append')] for a in pair if ast.unparse(a).endswith('.append')]
+            if len(pair) == 2 and len(names) == 2 and names[0] != names[1] and all(n in lists for n in names):
                 S, F = names
                 installs = True
                 continue
@@ -259,6 +302,11 @@ def extract_result(fn):
 
     def arm(body):
         b = [x for x in body if not (isinstance(x, ast.Expr) and isinstance(x.value, ast.Constant))]
+        # statements after an unconditional raise (`raise …`, `Failure.raiseException()`) are dead code
+        for k, x in enumerate(b):
+            if isinstance(x, ast.Raise) or ast.unparse(x) == '%s[0].raiseException()' % F:
+                b = b[:k + 1]
+                break
         if len(b) == 1:
             u = ast.unparse(b[0])
             if u == '%s[0].raiseException()' % F:
@@ -284,6 +332,12 @@ def run_user(fn):
             if len(ps) == 2 and fn.args.vararg and v == 'defer.maybeDeferred(%s, *%s)' % (ps[1], fn.args.vararg.arg) and d is None:
                 d = name
                 steps.append('.maybeDeferred')
+                continue
+            # `addErrback` returns the Deferred it is called on: the chained spelling is the same two steps
+            if len(ps) == 2 and fn.args.vararg and d is None and \
+                    v == 'defer.maybeDeferred(%s, *%s).addErrback(self._got_user_failure)' % (ps[1], fn.args.vararg.arg):
+                d = name
+                steps += ['.maybeDeferred', '.addErrbackGotUserFailure']
                 continue
             if d and v == 'extract_result(%s)' % d and res is None:
                 res = name
